@@ -116,6 +116,67 @@ def selfvalidate(prop=None, root="/repo", jobs=None) -> dict:
     return out
 
 
+def corpus_check(prop, root="/repo") -> dict:
+    """Independent sub-agent seeds kept under /verif/seeded/<PROP>_<k>/patch.diff: each is applied
+    to a throw-away copy of the current sources (outside /repo and /verif, removed at once) and
+    the property's rules must report something new.  A patch that no longer applies to the
+    current tree is skipped (counted)."""
+    import json
+    import shutil
+    import subprocess
+    import tempfile
+
+    from .runner import analyse
+
+    here = os.path.dirname(os.path.dirname(os.path.abspath(__file__)))
+    sdir = os.path.join(here, "seeded")
+    out = {"applied": 0, "detected": 0, "skipped": [], "missed": [], "expected_misses": []}
+    if not os.path.isdir(sdir):
+        return out
+    base, _ = _baseline_keys(prop, root)
+    for name in sorted(os.listdir(sdir)):
+        if not name.startswith(prop + "_"):
+            continue
+        patch = os.path.join(sdir, name, "patch_current.diff")  # the seed re-expressed on today's tree
+        if not os.path.exists(patch):
+            patch = os.path.join(sdir, name, "patch.diff")
+        meta_p = os.path.join(sdir, name, "meta.json")
+        if not os.path.exists(patch):
+            continue
+        expected_detect = True
+        if os.path.exists(meta_p):
+            try:
+                expected_detect = bool(json.load(open(meta_p)).get("detected_by"))
+            except Exception:
+                pass
+        tmp = tempfile.mkdtemp(prefix="jtsa_corpus_")
+        try:
+            shutil.copytree(os.path.join(root, "jaxtyping"), os.path.join(tmp, "jaxtyping"), ignore=shutil.ignore_patterns("__pycache__"))
+            if os.path.isdir(os.path.join(root, "docs")):
+                shutil.copytree(os.path.join(root, "docs"), os.path.join(tmp, "docs"))
+            r = subprocess.run(["git", "apply", "--unsafe-paths", "--directory", tmp, patch], cwd=tmp, capture_output=True, text=True)
+            if r.returncode != 0:
+                r = subprocess.run(["patch", "-p1", "-s", "-f", "-i", patch], cwd=tmp, capture_output=True, text=True)
+            if r.returncode != 0:
+                out["skipped"].append(name)
+                continue
+            out["applied"] += 1
+            try:
+                ctx = analyse(prop, tmp, thorough=False)
+                new = [f for f in ctx.findings if f.key not in base]
+            except AnalysisError:
+                new = []
+            if new:
+                out["detected"] += 1
+            elif expected_detect:
+                out["missed"].append(name)
+            else:
+                out["expected_misses"].append(name)
+        finally:
+            shutil.rmtree(tmp, ignore_errors=True)
+    return out
+
+
 def main(argv, root="/repo") -> int:
     props = argv or [None]
     rc = 0
